@@ -6,4 +6,12 @@ EXTENDS Stats
 PnLsQuick    == {-2, -1, 0, 1, 3}           \* returns {-2,-1,0,1,3}/10 with cost 10
 ValsQuick    == {-3, -1, 0, 2, 1000}        \* repeats allowed, mixed magnitude
 ValsThorough == {-3, -1, 0, 2, 7, 1000}
+\* the ratio figures: exit-time increments in seconds (equal times; one second; exactly the custom
+\* two-hour interval; more than a day; more than a year - so that scaling goes up, nowhere, down)
+GapsQuick    == {0, 7200, 40000000}
+GapsSmall    == {0, 7200}
+PnLsRatio    == {-2, -1, 0, 1}              \* two different losses, break-even, the return 1/10 = rf
+\* risk-free returns: none, one tenth (the return 1/10 exists: excess exactly zero), negative
+RFsQuick     == {<<0, 1>>, <<1, 10>>, <<-1, 10>>}
+RFsZero      == {<<0, 1>>}
 =============================================================================
